@@ -252,4 +252,272 @@ theorem groupLoop_ok (fs : UFields) (hv : fs.valid = true) (fuel : Nat) (dp : In
     exact groupLoop_ok fs hv.2 fuel dp num etg rest n0 he hn (by omega) (by omega)
 end
 
+
+/-! ### `ConsumeGroup` strips exactly the end tag -/
+
+/-- number of bytes up to and including the last one whose low seven bits are not zero -/
+def sigLen : List Byte → Nat
+  | [] => 0
+  | c :: t => if sigLen t ≠ 0 then sigLen t + 1 else if low7 c ≠ 0 then 1 else 0
+
+theorem sigLen_le (l : List Byte) : sigLen l ≤ l.length := by
+  induction l with
+  | nil => simp [sigLen]
+  | cons c t ih => simp only [sigLen, List.length_cons]; split <;> (try split) <;> omega
+
+theorem stripZeros7_cons (c : Byte) (t : List Byte) :
+    stripZeros7 (c :: t) =
+      if (stripZeros7 t).isEmpty then (if low7 c ≠ 0 then [c] else []) else c :: stripZeros7 t := by
+  simp only [stripZeros7, List.reverse_cons, List.dropWhile_append, List.isEmpty_reverse]
+  split
+  · simp only [List.dropWhile, low7]
+    by_cases h : c.toNat % 128 = 0
+    · simp [h]
+    · have hb : (c.toNat % 128 == 0) = false := by simp [h]
+      simp [h, hb]
+  · simp
+
+theorem stripZeros7_eq_take (l : List Byte) : stripZeros7 l = l.take (sigLen l) := by
+  induction l with
+  | nil => simp [stripZeros7, sigLen]
+  | cons c t ih =>
+    rw [stripZeros7_cons, ih, sigLen]
+    have hle := sigLen_le t
+    by_cases h : sigLen t = 0
+    · simp only [h, List.take_zero, List.isEmpty_nil, if_true, ne_eq, not_true_eq_false, if_false]
+      split <;> simp
+    · have : (List.take (sigLen t) t).isEmpty = false := by
+        cases t with
+        | nil => simp [sigLen] at h
+        | cons a t' =>
+          cases hs : sigLen (a :: t') with
+          | zero => omega
+          | succ k => simp
+      simp [this, h]
+
+theorem sigLen_append (pre l : List Byte) (h : sigLen l ≠ 0) : sigLen (pre ++ l) = pre.length + sigLen l := by
+  induction pre with
+  | nil => simp
+  | cons c t ih =>
+    simp only [List.cons_append, sigLen, ih, List.length_cons]
+    rw [if_pos (by omega)]; omega
+
+/-- number of base-128 digits -/
+def ngroups (v : Nat) : Nat := if v < 128 then 1 else ngroups (v / 128) + 1
+decreasing_by omega
+
+theorem ngroups_small (v : Nat) (h : v < 128) : ngroups v = 1 := by rw [ngroups, if_pos h]
+theorem ngroups_step (v : Nat) (h : ¬ v < 128) : ngroups v = ngroups (v / 128) + 1 := by rw [ngroups, if_neg h]
+
+theorem ngroups_pos (v : Nat) : 1 ≤ ngroups v := by
+  rw [ngroups]; split <;> omega
+
+theorem varintVal_zero_sigLen (bs : List Byte) (h : varintVal bs = 0) : sigLen bs = 0 := by
+  induction bs with
+  | nil => rfl
+  | cons c t ih =>
+    simp only [varintVal] at h
+    have h1 : low7 c = 0 := by omega
+    have h2 : varintVal t = 0 := by omega
+    simp [sigLen, ih h2, h1]
+
+theorem low7_lt (c : Byte) : low7 c < 128 := by unfold low7; omega
+
+theorem sigLen_eq_ngroups (bs : List Byte) (h : varintVal bs ≠ 0) : sigLen bs = ngroups (varintVal bs) := by
+  induction bs with
+  | nil => simp [varintVal] at h
+  | cons c t ih =>
+    have hl := low7_lt c
+    simp only [varintVal] at h ⊢
+    by_cases hV : varintVal t = 0
+    · have hc : low7 c ≠ 0 := by omega
+      rw [sigLen, varintVal_zero_sigLen t hV, hV, ngroups_small _ (by omega)]
+      simp [hc]
+    · have := ih hV
+      have hp := ngroups_pos (varintVal t)
+      rw [sigLen, if_pos (by omega), this, ngroups_step (low7 c + 128 * varintVal t) (by omega)]
+      congr 2
+      omega
+
+theorem log2_div128 (v : Nat) (h : 128 ≤ v) : Nat.log2 v = Nat.log2 (v / 128) + 7 := by
+  rw [Nat.log2_def v, if_pos (by omega), Nat.log2_def (v/2), if_pos (by omega),
+    Nat.log2_def (v/2/2), if_pos (by omega), Nat.log2_def (v/2/2/2), if_pos (by omega),
+    Nat.log2_def (v/2/2/2/2), if_pos (by omega), Nat.log2_def (v/2/2/2/2/2), if_pos (by omega),
+    Nat.log2_def (v/2/2/2/2/2/2), if_pos (by omega)]
+  have : v / 2 / 2 / 2 / 2 / 2 / 2 / 2 = v / 128 := by omega
+  rw [this]
+
+theorem ngroups_eq_log2 (v : Nat) (h : v ≠ 0) : ngroups v = Nat.log2 v / 7 + 1 := by
+  induction v using Nat.strongRecOn with
+  | _ v ih =>
+    rw [ngroups]
+    split
+    · have : Nat.log2 v < 7 := (Nat.log2_lt h).2 (by omega)
+      omega
+    · rw [ih (v / 128) (by omega) (by omega), log2_div128 v (by omega)]
+      omega
+
+theorem log2_or_one (v : Nat) (h : v ≠ 0) : Nat.log2 (v ||| 1) = Nat.log2 v := by
+  have hw : v ||| 1 ≠ 0 := by
+    intro h0
+    have : v ≤ v ||| 1 := Nat.left_le_or
+    omega
+  rw [Nat.log2_eq_iff hw]
+  constructor
+  · exact Nat.le_trans (Nat.log2_self_le h) Nat.left_le_or
+  · apply Nat.or_lt_two_pow Nat.lt_log2_self
+    exact Nat.one_lt_two_pow (by omega)
+
+theorem sizeVarint_eq_ngroups (v : Nat) (h : v < 2 ^ 64) : sizeVarint v = ngroups v := by
+  unfold sizeVarint
+  by_cases h0 : v = 0
+  · subst h0; rw [ngroups]; decide
+  · rw [log2_or_one v h0, ngroups_eq_log2 v h0]
+    have hL : Nat.log2 v < 64 := (Nat.log2_lt h0).2 h
+    have key : ∀ L, L < 64 → (L * 9 + 73) / 64 = L / 7 + 1 := by decide
+    exact key _ hL
+
+theorem ngroups_tag (num : Nat) (h : 1 ≤ num) : ngroups (num * 8) = ngroups (num * 8 + 4) := by
+  have : (num * 8 + 4) / 128 = num * 8 / 128 := by omega
+  by_cases h1 : num * 8 + 4 < 128
+  · rw [ngroups_small _ h1, ngroups_small _ (by omega)]
+  · rw [ngroups_step _ h1, ngroups_step _ (by omega), this]
+
+/-- after `ConsumeFieldValue` has found the end of the group, dropping the trailing bytes whose low
+seven bits are zero and then `SizeTag(num)` bytes removes exactly the (possibly non-minimal) end tag -/
+theorem strip_end_tag (pre etag : List Byte) (h : isTag etag 4 = true) :
+    let b1 := stripZeros7 (pre ++ etag)
+    sizeTag (tagNum etag) ≤ b1.length ∧ b1.take (b1.length - sizeTag (tagNum etag)) = pre := by
+  simp only [isTag, Bool.and_eq_true, beq_iff_eq, decide_eq_true_eq] at h
+  obtain ⟨⟨⟨hv, ht⟩, h1⟩, h2⟩ := h
+  have hne : varintVal etag ≠ 0 := by omega
+  have hs := sigLen_eq_ngroups etag hne
+  have hval : varintVal etag = tagNum etag * 8 + 4 := by unfold tagNum; omega
+  have hsz : sizeTag (tagNum etag) = sigLen etag := by
+    unfold sizeTag
+    rw [sizeVarint_eq_ngroups _ (by unfold tagNum; omega), ngroups_tag _ (by unfold tagNum; omega), ← hval, hs]
+  have hpos := ngroups_pos (varintVal etag)
+  have hle := sigLen_le etag
+  simp only
+  rw [stripZeros7_eq_take, sigLen_append pre etag (by omega), hsz, List.length_take, List.length_append]
+  constructor
+  · omega
+  · rw [Nat.min_eq_left (by omega), Nat.add_sub_cancel, List.take_take, Nat.min_eq_left (by omega), List.take_left]
+
+
+
+/-- `ConsumeGroup` on a valid group (nesting within protowire's limit) returns exactly the encoded
+body and the length of body + end tag — also when the end tag is a non-minimal varint. -/
+theorem consumeGroup_ok (tag : List Byte) (body : UFields) (etag rest : List Byte)
+    (hv : (UField.group tag body etag).valid = true)
+    (hd : (UField.group tag body etag).depth ≤ 10001) :
+    consumeGroup (tagNum tag) (body.encode ++ (etag ++ rest))
+      = some (.ok (body.encode, body.encode.length + etag.length)) := by
+  have hfv := fieldValue_ok (.group tag body etag) hv (fuelFor (body.encode ++ (etag ++ rest)))
+    recursionLimit rest
+    (by simp only [UField.payload, fuelFor, List.length_append]; omega)
+    (by simp only [recursionLimit]; omega)
+  simp only [UField.payload, UField.tag, UField.typ, List.append_assoc, List.length_append] at hfv
+  simp only [UField.valid, Bool.and_eq_true, beq_iff_eq] at hv
+  obtain ⟨⟨⟨_, _⟩, het⟩, hnum⟩ := hv
+  unfold consumeGroup consumeFieldValue
+  rw [hfv]
+  have htake : (body.encode ++ (etag ++ rest)).take (body.encode.length + etag.length) = body.encode ++ etag := by
+    rw [← List.append_assoc, ← List.length_append, List.take_left]
+  simp only [htake]
+  obtain ⟨h1, h2⟩ := strip_end_tag body.encode etag het
+  rw [hnum] at h1 h2
+  rw [if_pos h1, h2]
+
+theorem appendString_isSome (s : List Byte) (ascii : Bool) : ∃ o, appendString s ascii = some o := by
+  unfold appendString
+  obtain ⟨body, hb⟩ := escLoop_total (s.drop (indexNeedEscape s)) ascii
+  exact ⟨0x22#8 :: (s.take (indexNeedEscape s) ++ body ++ [0x22#8]), by simp [hb]⟩
+
+theorem UFields.encode_cons (f : UField) (fs : UFields) :
+    (UFields.cons f fs).encode = f.tag ++ (f.payload ++ fs.encode) := by
+  simp [UFields.encode]
+
+mutual
+/-- `marshalUnknown` renders one valid field and goes on with what follows -/
+theorem marshalField_ok (f : UField) (hv : f.valid = true) (hd : f.depth ≤ 10001) (fuel : Nat) (ascii : Bool)
+    (restB : List Byte) (e : Enc)
+    (hf : f.tag.length + f.payload.length + restB.length ≤ fuel)
+    (K : ∀ e1, ∃ e', marshalUnknownF (fuel - 1) ascii restB e1 = some e') :
+    ∃ e', marshalUnknownF fuel ascii (f.tag ++ (f.payload ++ restB)) e = some e' := by
+  have htag := f.tag_valid hv
+  have htl := isTag_length_pos _ _ htag
+  cases fuel with
+  | zero => omega
+  | succ fuel =>
+  have hne : (f.tag ++ (f.payload ++ restB)).isEmpty = false := by
+    cases h : f.tag with
+    | nil => rw [h] at htl; simp at htl
+    | cons => simp
+  simp only [Nat.add_sub_cancel] at K
+  rw [marshalUnknownF]
+  simp only [hne, Bool.false_eq_true, if_false, consumeTag_ok f.tag _ f.typ htag, List.drop_left]
+  match f, hv with
+  | .varint tag v, hv =>
+    simp only [UField.valid, Bool.and_eq_true] at hv
+    simp only [UField.typ, UField.payload, if_true, consumeVarint_ok v restB hv.2, List.drop_left]
+    exact K _
+  | .fixed64 tag p, hv =>
+    simp only [UField.valid, Bool.and_eq_true, beq_iff_eq] at hv
+    have h8 : ¬ (8 + restB.length < 8) := by omega
+    have hdrop : (p ++ restB).drop 8 = restB := by rw [← hv.2, List.drop_left]
+    simp only [UField.typ, UField.payload, consumeFixed64, List.length_append, hv.2, h8, if_false,
+      Nat.reduceEqDiff, if_true, hdrop]
+    exact K _
+  | .fixed32 tag p, hv =>
+    simp only [UField.valid, Bool.and_eq_true, beq_iff_eq] at hv
+    have h4 : ¬ (4 + restB.length < 4) := by omega
+    have hdrop : (p ++ restB).drop 4 = restB := by rw [← hv.2, List.drop_left]
+    simp only [UField.typ, UField.payload, consumeFixed32, List.length_append, hv.2, h4, if_false,
+      Nat.reduceEqDiff, if_true, hdrop]
+    exact K _
+  | .bytes tag len p, hv =>
+    simp only [UField.valid, Bool.and_eq_true, beq_iff_eq] at hv
+    have hb : ¬ (p.length + restB.length < p.length) := by omega
+    simp only [UField.typ, UField.payload, consumeBytes, List.append_assoc,
+      consumeVarint_ok len (p ++ restB) hv.1.2, List.drop_left, List.length_append, hv.2,
+      Nat.reduceEqDiff, if_false, if_true, List.take_left]
+    rw [if_neg (by omega)]
+    obtain ⟨o, ho⟩ := appendString_isSome p ascii
+    simp only [writeString, ho, Option.map_some, Option.bind_some]
+    have hdrop : (len ++ (p ++ restB)).drop (len.length + p.length) = restB := by
+      rw [← List.append_assoc, ← List.length_append, List.drop_left]
+    rw [hdrop]
+    exact K _
+  | .group tag body etag, hv =>
+    have hcg := consumeGroup_ok tag body etag restB hv hd
+    simp only [UField.typ, UField.payload, UField.tag, List.append_assoc, Nat.reduceEqDiff, if_false,
+      if_true, hcg]
+    simp only [UField.valid, Bool.and_eq_true, beq_iff_eq] at hv
+    simp only [UField.depth] at hd
+    simp only [UField.payload, UField.tag, List.length_append] at hf
+    have hel := isTag_length_pos etag 4 hv.1.2
+    obtain ⟨e2, he2⟩ := marshalFields_ok body hv.1.1.2 (by omega) fuel ascii
+      (startMessage (writeName e (decStr (tagNum tag)))) (by omega)
+    have hdrop : (body.encode ++ (etag ++ restB)).drop (body.encode.length + etag.length) = restB := by
+      rw [← List.append_assoc, ← List.length_append, List.drop_left]
+    simp only [he2, Option.bind_some, hdrop]
+    exact K _
+/-- `marshalUnknown` renders a valid field sequence completely -/
+theorem marshalFields_ok (fs : UFields) (hv : fs.valid = true) (hd : fs.depth ≤ 10001) (fuel : Nat)
+    (ascii : Bool) (e : Enc) (hf : fs.encode.length ≤ fuel) :
+    ∃ e', marshalUnknownF fuel ascii fs.encode e = some e' := by
+  match fs, hv with
+  | .nil, _ =>
+    cases fuel <;> simp [marshalUnknownF, UFields.encode]
+  | .cons f fs, hv =>
+    simp only [UFields.valid, Bool.and_eq_true] at hv
+    simp only [UFields.depth] at hd
+    rw [UFields.encode_cons] at hf ⊢
+    simp only [List.length_append] at hf
+    have htl := isTag_length_pos _ _ (f.tag_valid hv.1)
+    exact marshalField_ok f hv.1 (by omega) fuel ascii fs.encode e (by omega)
+      (fun e1 => marshalFields_ok fs hv.2 (by omega) (fuel - 1) ascii e1 (by omega))
+end
+
 end Model.TextStr.Unknown
